@@ -204,4 +204,78 @@ class C07d(Obligation):
                   'renames happen in get_renames() order')
 
 
-OBLIGATIONS = [C07a, C07d]
+from obligations.c01 import code_lines  # noqa: E402
+
+
+class C07b(Obligation):
+    id = 'C07.b'
+    title = 'get_diff: the line lists handed to difflib are the old text and get_new_code(); header names are project-relative'
+    pattern = 'P1 (difflib.unified_diff and parso.split_lines are stubs; difflib is trusted)'
+    assumptions = (
+        'old and new text are given as split_lines-shaped line lists (K<=2 lines each); parso.split_lines is a stub '
+        'returning them; difflib.unified_diff is a recording stub (difflib itself is trusted)',
+        'the file lies inside the project (header names are relative) or outside it (absolute)',
+    )
+    findings = {'C07-final-newline': 'old or new text without a final newline: jedi diffs text+"\\n" (documented choice in the code)'}
+
+    def configs(self, tier):
+        ks = ((1, 1), (1, 2), (2, 1), (2, 2)) if tier == 'quick' else ((1, 1), (1, 2), (2, 1), (2, 2), (3, 3))
+        return [dict(KO=a, KN=b) for a, b in ks]
+
+    def scenario(self, ctx, cfg):
+        old_lines = code_lines(ctx, cfg['KO'], 4)
+        new_lines = [l for l in code_lines_named(ctx, cfg['KN'], 4, 'new')]
+        OLD, NEW = Obj(tag='old-code'), Obj(tag='new-code')
+        table = {id(OLD): old_lines, id(NEW): new_lines}
+        ctx.patch(R, 'split_lines', lambda code, keepends=False: list(table[id(code)]))
+        handed = []
+
+        def unified_diff(a, b, fromfile='', tofile=''):
+            handed.append((list(a), list(b), fromfile, tofile))
+            return iter(['DIFF '])
+        ctx.patch(R.difflib, 'unified_diff', unified_diff)
+        inside = ctx.flag('file_inside_project')
+        project = ctx.path(['proj'])
+        path = ctx.path(['proj', 'pkg', 'm.py']) if inside else ctx.path(['elsewhere', 'm.py'])
+        state = Obj(project=Obj(path=project), grammar=Obj(refactor=lambda node, mapping: NEW))
+        cf = R.ChangedFile(state, path, path, Obj(get_code=lambda: OLD), {})
+        cf._pysym_holder = True
+        ctx.force(R.ChangedFile.get_diff)
+        out = ctx.call(cf.get_diff)
+        ctx.check(out.exc is None and len(handed) == 1, 'get_diff produces one unified diff')
+        if out.exc is not None or len(handed) != 1:
+            return
+        a, b, fromfile, tofile = handed[0]
+        old_text = _join(old_lines)
+        new_text = _join(new_lines)
+        no_nl_old = old_lines[-1] != ''
+        no_nl_new = new_lines[-1] != ''
+        ctx.check(ctx.And(_join(a) == old_text, _join(b) == new_text),
+                  'the diff is computed between exactly the original text and get_new_code()',
+                  known={'C07-final-newline': ctx.Or(no_nl_old, no_nl_new)})
+        # jedi's documented normalisation: each side gets a final newline iff that side lacks one
+        ctx.check(_join(a) == old_text + ctx.ite(no_nl_old, '\n', ''), 'old side: final newline added iff missing in the old text')
+        ctx.check(_join(b) == new_text + ctx.ite(no_nl_new, '\n', ''), 'new side: final newline added iff missing in the new text')
+        expected_name = 'pkg/m.py' if inside else '/elsewhere/m.py'
+        ctx.check(fromfile == expected_name and tofile == expected_name, 'header names: project-relative inside the project')
+
+
+def _join(lines):
+    out = ''
+    for l in lines:
+        out = out + l
+    return out
+
+
+def code_lines_named(ctx, K, maxlen, prefix):
+    from obligations.c01 import EOLS
+    lines = []
+    for i in range(K):
+        body = ctx.str('%s_body%d' % (prefix, i), maxlen=maxlen, exclude='\n\r')
+        if i < K - 1:
+            body = body + ctx.oneof('%s_eol%d' % (prefix, i), EOLS)
+        lines.append(body)
+    return lines
+
+
+OBLIGATIONS = [C07a, C07b, C07d]
